@@ -68,6 +68,9 @@ func (c *Ctx) writeSigs(pkgs []string, fileFilter func(string) bool) []writeSig 
 				}
 				set := map[string]bool{}
 				for _, s := range own.Dedup(c.P, e.WritesParam(fn, i)) {
+					if s.Origin().Field == "" {
+						continue // a write whose target the engine cannot name: its wording depends on how the code is written
+					}
 					set[sinkKey(c.P, s)] = true
 				}
 				sig.Writes[fmt.Sprintf("param %d", i)] = sortedKeys(set)
